@@ -15,6 +15,7 @@ func (c *Ctx) runSemFamily(module, cfg string, o *SemOpts, timeout time.Duration
 	}
 	st := c.replaySemFile(out, o, 997)
 	c.recordSem(module+"/"+cfg, st)
+	c.lastFile = out
 	return st
 }
 
@@ -106,4 +107,23 @@ func checkC04(c *Ctx) {
 func init() {
 	checks["C04"] = checkC04
 	replayers["C04"] = replaySemCase(&SemOpts{})
+}
+
+func checkC06(c *Ctx) {
+	o := &SemOpts{}
+	cfg := "FamFaults_quick.cfg"
+	if c.Tier == "thorough" {
+		cfg = "FamFaults_thorough.cfg"
+	}
+	if c.runSemFamily("FamFaults", cfg, o, 60*time.Minute) != nil {
+		c.replaySemCLI(c.lastFile, o, 1, 8*time.Second)
+	}
+	c.cov("exhaustive", true)
+	c.cov("rule", "FamFaults: each of 23 expression faults (undefined read/assign, operand type, zero divisor, negative shift, index out of range/negative/fractional/non-array, missing property, property of non-object, non-callable, arity, failing built-ins) at each of 37 syntactic positions, plus redeclaration and stray break/continue/return at statement positions, x line paddings; each program prints before the fault and afterwards tries to print, prompt/read and read the clock, also inside while(true)/for(;;) loops; every program is replayed in-process (ordering of effects through hooks) and through the executable (exit status, streams)")
+	semAssumptions(c)
+}
+
+func init() {
+	checks["C06"] = checkC06
+	replayers["C06"] = replaySemCase(&SemOpts{})
 }
